@@ -929,7 +929,7 @@ func main() {
 	o := vh.ParseFlags()
 	rng := vh.NewRng(o.Seed)
 	rep := vh.NewReport("C17", o.Seed, o.Tier)
-	rep.Rule = "Embed(data, stream) for every group supporting it, data = nil / empty / every length 0..EmbedLen+8 and long data (255..513, 65535..65537+EmbedLen, 2^17, 2^20+1, random up to 70000 bytes), streams = seeded BLAKE2Xb output with all-zero / all-0xff / 0xff-high-bytes prefixes, streams whose first candidates are refused, and streams whose first or second candidate block is a boundary value (0,1,2, p-2..p+2, 2p, group order +-2, 2^k, 2^k+-1, non-canonical and small-order Ed25519 encodings, each sign variant; also with data laid over it); Pick on all 20 group instances; hash-to-group on every hashable group with messages 0..300 and tags 1..300 bytes. Oracles: q*P = O, canonical on-curve coordinates (independent big.Int check), same consumed bytes => same point, Data() = stored data before and after Marshal/Unmarshal, error for length fields > EmbedLen, distinct data/messages/tags => distinct points, RFC 9380 vectors. Model comparison: exact point bytes, stream bytes consumed, Data() results (Ed25519 x3, P-256, BN256 G1, QR-512), expand_message_xmd and edwards25519 Hash outputs. distinct = distinct (group, data, stream) or (group, message, tag); all are non-trivial"
+	rep.Rule = "Embed(data, stream) for every group supporting it, data = nil / empty / every length 0..EmbedLen+8 and long data (255..513, 65535..65537+EmbedLen, 2^17, 2^20+1, random up to 70000 bytes), streams = seeded BLAKE2Xb output with all-zero / all-0xff / 0xff-high-bytes prefixes, streams whose first candidates are refused, and streams whose first or second candidate block is a boundary value (0,1,2, p-2..p+2, 2p, group order +-2, 2^k, 2^k+-1, non-canonical and small-order Ed25519 encodings, each sign variant; also with data laid over it); groups incl. non-default configurations (residue groups p = r*q+1 with cofactor 4, 6, 30 built with SetParams, 64..160-bit q; quadratic-residue groups of 125/128/512 bits); every call writes into a receiver with a rotating history (fresh, Base, Null, random multiple, previous Pick, unmarshalled) and is repeated on another history, every fourth call is repeated as two calls on one stream object, the caller's data buffer is overwritten after Embed, Data() is called twice, on a Clone and after Marshal/Unmarshal; payloads with leading zero bytes on zero-prefixed streams; Pick on all 20 group instances; hash-to-group on every hashable group with messages 0..300 and tags 1..300 bytes. Oracles: q*P = O, canonical on-curve coordinates (independent big.Int check), same consumed bytes => same point, Data() = stored data before and after Marshal/Unmarshal, error for length fields > EmbedLen, distinct data/messages/tags => distinct points, RFC 9380 vectors. Model comparison: exact point bytes, stream bytes consumed, Data() results (Ed25519 x3, P-256, BN256 G1, QR-512), expand_message_xmd and edwards25519 Hash outputs. distinct = distinct (group, data, stream) or (group, message, tag); all are non-trivial"
 	cf := &vh.CaseFile{Header: "From Kyber Require Import Embed.EmbedRun.", Type: "case", Runner: "mismatches"}
 	c := &ctx{rep: rep, seen: map[string]map[string]string{}}
 	id := 0
